@@ -212,15 +212,53 @@ def id_cmp(ctx):
         pp = param_path(iter_source(src)[0])
         return pp[0] if pp else None
 
+    def zip_sides(src):
+        """src walks `x.zip(y)` with x, y the whole paths of the two identifiers -> (side of x, side of y)"""
+        z = versionless(src)
+        while z[0] == 'call' and call_name(z) == 'into_iter' and z[2]:
+            z = versionless(z[2][0])
+        if not (is_call(z, 'zip') and len(z[2]) == 2):
+            return None
+        out = []
+        for x in z[2]:
+            base, kind, clo = iter_source(x)
+            pp = param_path(base)
+            if not (pp and pp[1] == ('0',) and not clo and not (set(iter_adaptors(x)) & (LOSSY_ADAPTORS | {'rev'}))):
+                return None
+            out.append(pp[0])
+        return tuple(out) if set(out) == {1, 2} else None
+
     def atom(t):
         s = side_of(t)
         if s == 1:
             return 'a'
         if s == 2:
             return 'b'
+        if t[0] == 'discr':
+            src = as_item(('field', t[1], 'Some.0'))
+            if src is not None and zip_sides(src):
+                # the zipped walk yields a pair exactly while both paths have a node
+                return ('map', 'ab', {(1, 1): 1, (1, 0): 0, (0, 1): 0, (0, 0): 0})
+        return None
+
+    def len_side(x):
+        x = drop_lv(x)
+        if is_call(x, 'len') and len(x[2]) == 1:
+            pp = param_path(x[2][0])
+            return pp[0] if pp and pp[1] == ('0',) else None
         return None
 
     def classify(a, b, t):
+        la, lb = len_side(a), len_side(b)
+        if la and lb and {la, lb} == {1, 2}:
+            return ('len', 'fwd' if la == 1 else 'rev')      # ord(len(self path), len(other path)): known once a walk has ended
+        va, vb = versionless(a), versionless(b)
+        if va[0] == 'field' and vb[0] == 'field' and va[1] == vb[1] and {va[2], vb[2]} == {'0', '1'}:
+            src = as_item(va[1])
+            zs = zip_sides(src) if src is not None else None
+            if zs:
+                first = zs[0] if va[2] == '0' else zs[1]
+                return ('node', 'fwd' if first == 1 else 'rev')
         sa, sb = as_item(a), as_item(b)
         if sa is None or sb is None:
             return None
@@ -233,7 +271,10 @@ def id_cmp(ctx):
     for a in (0, 1):
         for b in (0, 1):
             for o in (TOTAL if (a, b) == (1, 1) else (EQ,)):
-                evr = Evaluator(facts, classify=classify, bool_atom=atom, assumption={'a': a, 'b': b, 'node': o})
+                asm = {'a': a, 'b': b, 'node': o, 'ab': (a, b)}
+                if (a, b) != (1, 1):
+                    asm['len'] = {(0, 0): EQ, (1, 0): GT, (0, 1): LT}[(a, b)]      # the path that still has a node is the longer one
+                evr = Evaluator(facts, classify=classify, bool_atom=atom, assumption=asm)
                 rc = Reach(facts, body, evr)
                 outs = set()
                 for (bb, si), w in it.ret_assigns.items():
@@ -252,6 +293,9 @@ def id_cmp(ctx):
     p10, p01 = table[(1, 0, EQ)], table[(0, 1, EQ)]
     if not (len(p10) == 1 and len(p01) == 1 and {p10[0], p01[0]} == {LT, GT}):
         errs.append('prefix rule is not antisymmetric: (longer,shorter)->%s but (shorter,longer)->%s' % (p10, p01))
+    elif p10 != [LT]:
+        # `between` builds a new identifier by extending a bound's path: it relies on an extension sorting BEFORE the path it extends
+        errs.append('a path sorts after its own extensions ((longer,shorter)->%s): the longer path must sort before its prefix' % p10)
     if table[(1, 1, LT)] != [LT] or table[(1, 1, GT)] != [GT]:
         errs.append('differing nodes do not decide the result with the node ordering: Lt->%s Gt->%s' % (table[(1, 1, LT)], table[(1, 1, GT)]))
     if table[(1, 1, EQ)] != []:
